@@ -44,7 +44,7 @@ class NumMod:
 
     @staticmethod
     def zeros(shape, dtype=None):
-        return np.zeros(shape, dtype=complex)
+        return np.zeros(shape, dtype=dtype or float)          # numpy's own default: complex values written into it later lose their imaginary part
 
 
 MODS = {"numpy": NumMod, "Tensor.np": NumMod, "self.modules": NumMod, "np": NumMod, "math": NumMod}
